@@ -12,13 +12,17 @@
    (Characters: one value; Mixed: no two adjacent text items; otherwise sub-elements only); text items not blank; the
    parser's lookups pass; SHORT-NAME where named.
    Comments are covered: a comment is UTF-8 and CommentOk (the lexer finds its end where the writer put it).
-   MISSING, named: (1) the first half of C01_full, "what the loader returns is canonical": false on three known classes
-   (a Pattern value with an escaped byte, a non-preserving String value with an encoded blank at an end, adjacent text
-   items in mixed content: C01_reload_identity_refuted), not proved outside them — hence load(serialize(load d)) = load d is proved only through Canon; (2) RootCanon states the
+   The first half of C01_full, "what the loader returns is canonical", is false on the recorded classes
+   (C01_reload_identity_refuted) and PROVED outside them: C01_loader_canonical, with the decidable tree predicate
+   RoundTripCanon.knownb; the property as stated is C01_reload_identity.
+   MISSING, named: (1) trees whose root carries a non-canonical xsi:schemaLocation text (serialize rewrites it: the
+   re-loaded tree equals the REWRITTEN one; set_version is not shown to preserve RootCanon); lenient loads WITH warnings
+   (nothing is claimed about their trees) — hence load(serialize(load d)) = load d is proved only through Canon; (2) RootCanon states the
    header attributes semantically (parse_file_header returns ver silently on them). *)
 From AV Require Import Base.Bytes Base.Outcome Base.Utf8 Hash.HashModel Spec.SpecOps Spec.Versions
   Xml.Lexer Xml.Parser Xml.Serializer Xml.LexerProofs Xml.Escape Xml.RoundTripValues Xml.RoundTripAttrs
-  Xml.RoundTripLexer Xml.StrictValidDef Xml.ParserDepth Xml.RoundTripElem Xml.RoundTripFile Xml.ParserExamples Xml.RoundTripExamples.
+  Xml.RoundTripLexer Xml.StrictValidDef Xml.ParserDepth Xml.RoundTripElem Xml.RoundTripFile Xml.TablesOk
+  Xml.RoundTripCanonValues Xml.RoundTripCanon Xml.Utf8Closure Xml.RoundTripCanonFinal Xml.ParserExamples Xml.RoundTripExamples.
 From AV Require Import Spec.SpecReal Hash.HashRealElement Hash.HashRealAttr Hash.HashRealEnum.
 Open Scope list_scope.
 Open Scope N_scope.
@@ -186,3 +190,93 @@ Theorem C01_reload_identity_refuted :
             | _ => False
             end.
 Proof. exact reload_identity_refuted. Qed.
+
+(* [U] first half, values: what strict parse_character_data returns is ValOk for the file version, or belongs to a recorded value class (known_valueb: Pattern value with an escaped byte / non-preserving String with a blank at an end / escaped text over max_length); hypotheses: the std float law and the UTF-8 closure (= C01_utf8_closure) *)
+Theorem C01_values_canonical :
+  forall (tab_en : nametab) (check_fn : N -> list N -> res bool) (float_fmt : N -> list N)
+         (float_parse : list N -> option N),
+       (forall (s : list N) (b : N),
+        float_parse s = Some b ->
+        no_edge_ws (float_fmt b) /\
+        utf8_valid (float_fmt b) = true /\
+        float_parse (float_fmt b) = Some b /\ float_fmt b <> [] /\ forallb markup_free (float_fmt b) = true) ->
+       (forall (raw u : list N) (st st' : pstate),
+        utf8_valid raw = true -> unescape_string true raw st = Val (Ret u st') -> utf8_valid (escape_text u) = true) ->
+       forall (input : list N) (spec : cdspec) (st : pstate) (v : cdata) (st' : pstate),
+       parse_character_data true tab_en check_fn float_parse input spec st = Val (Ret v st') ->
+       ValOk tab_en check_fn float_fmt float_parse (p_version st) spec v \/ known_valueb spec v = true.
+Proof. exact pcd_canon. Qed.
+
+(* [U] first half, attributes: every attribute strict parse_attribute_text returns is AttrOk or has a value in a recorded class, and the required attributes are present *)
+Theorem C01_attributes_canonical :
+  forall (T : tables) (tab_en : nametab) (check_fn : N -> list N -> res bool) (float_fmt : N -> list N)
+         (float_parse : list N -> option N),
+       (forall (s : list N) (b : N),
+        float_parse s = Some b ->
+        no_edge_ws (float_fmt b) /\
+        utf8_valid (float_fmt b) = true /\
+        float_parse (float_fmt b) = Some b /\ float_fmt b <> [] /\ forallb markup_free (float_fmt b) = true) ->
+       (forall (raw u : list N) (st st' : pstate),
+        utf8_valid raw = true -> unescape_string true raw st = Val (Ret u st') -> utf8_valid (escape_text u) = true) ->
+       (forall (s : list N) (i : N), from_bytes tab_en s = Ok i -> clean_name s = true) ->
+       forall tab_at : nametab,
+       (forall (s : list N) (i : N), from_bytes tab_at s = Ok i -> clean_name s = true) ->
+       forall (ty : etype) (text : list N) (st : pstate) (attrs : list (N * cdata)) (st' : pstate),
+       parse_attribute_text true T tab_at tab_en check_fn float_parse ty text st = Val (Ret attrs st') ->
+       Forall (AttrCanon T tab_en check_fn float_fmt float_parse tab_at (p_version st) ty) attrs /\
+       (exists specs : list (N * N * cdspec * N),
+          attribute_spec_list T ty = Val specs /\
+          (forall (name cdid : N) (c : cdspec) (req : N),
+           In (name, cdid, c, req) specs -> req <> 0 -> existsb (fun a : N * cdata => fst a =? name) attrs = true)).
+Proof. exact pat_canon. Qed.
+
+(* [U] UTF-8 validity (the model of std::str::from_utf8) is preserved by strict unescaping followed by escaping; no hypothesis *)
+Theorem C01_utf8_closure :
+  forall (raw u : list N) (st st' : pstate),
+       utf8_valid raw = true -> unescape_string true raw st = Val (Ret u st') -> utf8_valid (escape_text u) = true.
+Proof. exact utf8_unescape_escape. Qed.
+
+(* [U] FIRST HALF of C01_full, outside the recorded classes: a tree that load returns without warnings (either mode) and on which knownb is false is a canonical root for the file version.  canon_hyps = tables_ok, cd_mode_ok, clean names in the three name tables (boolean, [F] for the regenerated tables: C01_real_canon_hyps) and the std float law *)
+Theorem C01_loader_canonical :
+  forall (T : tables) (tab_el tab_at tab_en : nametab) (check_fn : N -> list N -> res bool)
+         (float_fmt : N -> list N) (float_parse : list N -> option N),
+       canon_hyps T tab_el tab_at tab_en float_fmt float_parse ->
+       forall (b : bool) (bs : list N) (t : etree) (st : pstate),
+       load b T tab_el tab_at tab_en check_fn float_parse bs = Val (Ret t st) ->
+       p_warnings st = [] ->
+       knownb T t = false ->
+       forall s : bool, RootCanon s T tab_el tab_at tab_en check_fn float_fmt float_parse (p_version st) t.
+Proof. exact loader_canonical. Qed.
+
+(* [U] the property as stated: load -> serialize -> load is the identity (same tree, no warnings, same version, standalone flag as written) and the second serialization is byte-identical, for every accepted input whose load is silent, whose tree is outside the recorded classes and whose root already carries the canonical xsi:schemaLocation text (set_version t = t; ArxmlFile::serialize rewrites it otherwise) *)
+Theorem C01_reload_identity :
+  forall (T : tables) (tab_el tab_at tab_en : nametab) (check_fn : N -> list N -> res bool)
+         (float_fmt : N -> list N) (float_parse : list N -> option N),
+       canon_hyps T tab_el tab_at tab_en float_fmt float_parse ->
+       forall (b : bool) (bs : list N) (t : etree) (st : pstate),
+       load b T tab_el tab_at tab_en check_fn float_parse bs = Val (Ret t st) ->
+       p_warnings st = [] ->
+       knownb T t = false ->
+       set_version T tab_at check_fn (p_version st) t = Val t ->
+       forall sa : option bool,
+       exists bs' : list N,
+         serialize_file T tab_el tab_at tab_en check_fn float_fmt (p_version st) sa t = Val bs' /\
+         (exists st' : pstate,
+            load b T tab_el tab_at tab_en check_fn float_parse bs' = Val (Ret t st') /\
+            p_warnings st' = [] /\
+            p_version st' = p_version st /\
+            p_standalone st' = sa /\
+            serialize_file T tab_el tab_at tab_en check_fn float_fmt (p_version st') sa t = Val bs').
+Proof. exact reload_identity_closed. Qed.
+
+(* [F] the boolean hypotheses of C01_loader_canonical hold for the regenerated tables (no_float: the float law is vacuous
+   for an oracle that parses nothing; for the real oracles it is the std print/parse law) *)
+Theorem C01_real_canon_hyps : canon_hyps RT tab_element tab_attr tab_enum no_float_fmt no_float.
+Proof. exact real_canon_hyps. Qed.
+
+(* [F] knownb recognises the three recorded classes on the trees loaded from their replay documents, and is false on
+   ordinary documents (real tables) *)
+Theorem C01_known_classes_examples :
+  known_of doc_ok = Some false /\ known_of doc_rich = Some false /\
+  known_of doc_mixed_split = Some true /\ known_of doc_edge_blank = Some true /\ known_of doc_amp_pattern = Some true.
+Proof. exact (conj known_plain (conj known_rich (conj known_mixed_split (conj known_edge_blank known_amp_pattern)))). Qed.
